@@ -9,7 +9,7 @@ from ..seams import F, T, reset_world
 from ..seams import LIB_ERRORS
 from ..core import real
 from ..oracle import (L, ed_verify, sig_message, base_mult, point_add, pubkey_of_seed,
-                      scalar_to_int, int_to_scalar)
+                      scalar_to_int, int_to_scalar, as_key_arg, PREFIXES)
 
 PID = 'C17'
 ISOLATE = True      # one forked process per run: nothing a run does to process-global
@@ -85,6 +85,7 @@ def tweak_bytes(rng, cls):
 def gen_exchange(rng, cell):
     v, tw, co, fl = cell
     ex = {'variant': v, 'tweak_class': tw, 'tweak': tweak_bytes(rng, tw).hex(),
+          'keys': rng.choice(['bytes', 'bytes', 'object']), 'prefix': rng.choice(PREFIXES),
           'seed': rng.bytes(32).hex(), 'flags': fl if v not in ('raw_public', 'raw_private') else '00'}
     if v in ('raw_public', 'raw_private'):
         ex['m'] = rng.bytes(rng.choice([0, 1, 11, 32, 64, 255, 256, 512, rng.below(513)])).hex()
@@ -238,7 +239,9 @@ def build_adapter(e, T_used):
         sa, R, T2 = st.get(), st.get(), st.get()
         e.T_from_private = T2
         return R, sa
-    w = real('make_adapter_witness', T.make_adapter_witness, e.seed, T_used, e.sf, e.flags)
+    w = real('make_adapter_witness', T.make_adapter_witness,
+             as_key_arg('prv', e.seed, e.spec.get('keys', 'bytes')), T_used, e.sf, e.flags,
+             e.spec.get('prefix', ''))
     _, st, _ = real('run_script(adapter witness)', F.run_script, w.bytes, dict(e.sf))
     R, sa = st.get(), st.get()
     return R, sa
@@ -259,7 +262,8 @@ def run_check(e, R, sa, Xv, Tv, mv, sfv, prefix=False):
             items = st.list()
             return items == [b'\xff']
         if e.v == 'two_script':
-            s1, _ = T.make_adapter_locks_pub(Xv, Tv, e.flags)
+            s1, _ = T.make_adapter_locks_pub(as_key_arg('pub', Xv, e.spec.get('keys', 'bytes')),
+                                             Tv, e.flags)
         elif e.v == 'three_script':
             # B knows t; its view of T is what it derives -- unless its view is corrupted
             if Tv == e.T:
